@@ -23,6 +23,8 @@ ID = 'F6'
 LEVEL = 'proof'
 KEY = 'F6:offset-table'
 LEAN_TARGETS = ['Mahotas.Proofs.FilterIter']
+THEOREMS = {'Mahotas.Proofs.FilterIter': ['Mahotas.filterIter_refines', 'Mahotas.filterIter_refines_walk',
+                                         'Mahotas.filterIter_position', 'Mahotas.filterIter_refines_elemOffset']}
 MODES = ['nearest', 'wrap', 'reflect', 'mirror', 'constant', 'ignore']
 W_BITS = 17
 MAX_WORK = 250000          # bound on regions * filter_size (work of init_filter_offsets) per case
